@@ -112,6 +112,10 @@ def run_sweep(ctx, offsets):
             r3 = rt.PyEndpoint(m, mode="gen").copy(proto.name, "bin", "bin", data)
             ctx.ev(); ctx.count("sweep.py-gen")
             rt.judge(ctx, m, proto, vals, data, r3, "py-gen", "bin", "sweep %s at 64KiB%+d (python, generator)" % (proto.name, off), {"sweep_offset": off})
+            # a consumer that keeps every item until the stream has been read completely (values must not alias the reader's buffer)
+            r4 = rt.PyEndpoint(m, mode="list").copy(proto.name, "bin", "bin", data)
+            ctx.ev(); ctx.count("sweep.py-list")
+            rt.judge(ctx, m, proto, vals, data, r4, "py-list", "bin", "sweep %s at 64KiB%+d (python, items kept in a list)" % (proto.name, off), {"sweep_offset": off})
         ctx.case(("sweep", proto.name, off))
     m.close()
 
@@ -165,6 +169,40 @@ def run_nulltag(ctx):
     m.close()
 
 
+def run_union_matrix(ctx, quick):
+    """every pair of JSON kinds as a two-case union (C02's matrix model), values including enum integers outside the declared symbols and
+    flags that are not a combination of symbols, sent through NDJSON between the two languages"""
+    from props import C02 as c02
+    pkg = c02.matrix_package(True)
+    m = rt.prepare_model(ctx, "unionmatrix", pkg, ["plain"])
+    if m is None:
+        raise Inconclusive("union matrix model did not build")
+    c = m.codec
+    cpp, py = rt.CppEndpoint(m, "plain"), rt.PyEndpoint(m)
+
+    def one(proto):
+        vg = values.ValueGen(c, rng("C03m", proto.name), json_safe=True)
+        for k in range(4 if quick else 12):
+            vals = vg.steps(proto)
+            for i, (sn, t) in enumerate(proto.steps):
+                if isinstance(t, U) and len(t.cases) > 1 and not (t.nullable and k % 4 == 3):
+                    ci = k % len(t.cases)
+                    ct = c.res(c.fq(t.cases[ci][1]))
+                    v = vg.gen(c.fq(t.cases[ci][1]), 1)
+                    if isinstance(ct, N) and k >= 2:
+                        d, _ = c.env.lookup(ct)
+                        if isinstance(d, En):
+                            v = 21 if d.flags else 7          # not a combination of the declared flags / not a declared symbol
+                    vals[i] = (ci, v)
+            ctx.case(("unionmatrix", proto.name, k))
+            for a, b in ((cpp, py), (py, cpp)):
+                chain(ctx, m, proto, vals, "bin", [(a, "ndjson"), (b, "bin")], "union-matrix %s set %d" % (proto.name, k), {"matrix": True, "set": k})
+                ctx.count("unionmatrix.chains")
+
+    pmap(one, [p for p in pkg.protocols() if p.name != "MxGenericNullable"], workers=6)
+    m.close()
+
+
 def run(ctx):
     common.build_yardl()
     quick = ctx.tier == "quick"
@@ -185,6 +223,7 @@ def run(ctx):
     pmap(work, keys, workers=8)
     pmap(lambda key: run_py_modes(ctx, key + "m", corpus.ser_package(key, depth=3), 4), keys[: (3 if quick else 30)], workers=8)
     run_nulltag(ctx)
+    run_union_matrix(ctx, quick)
     run_sweep(ctx, range(-12, 3) if not quick else range(-11, 2))
     run_big(ctx)
     cxx.prune_cache()
